@@ -143,6 +143,11 @@ pxgstrf_resetrep_col(const int_t nseg, const int_t *segrep, int_t *repfnz)
 }
 
 
+#ifdef SLU_MT_VERIF
+/* default (no-op) verification hook; a harness may provide its own definition */
+__attribute__((weak)) void slu_mt_verif_event(int kind, int pnum, long a, long b, long c) {}
+#endif
+
 /*
  * Count the total number of nonzeros in factors L and U,  and in the 
  * symmetrically reduced L. 
